@@ -17,11 +17,12 @@ ATT_POOL = [{}, {"fg": 31}, {"bg": 44}, {"bold": True}, {"fg": 32, "bold": True}
             {"fg": 35, "bg": 41, "invert": True}]
 
 
-def mk(lens, base=97, att0=1):
-    """FmtStr with run lengths `lens`, distinct letters, a different attribute set per run"""
+def mk(lens, base=97, att0=1, uniform=False):
+    """FmtStr with run lengths `lens`, distinct letters, a different attribute set per run
+    (uniform=True: no attributes on any run -> same display as the one-run value, other boundaries)"""
     chunks, k = [], 0
     for i, l in enumerate(lens):
-        chunks.append(Chunk("".join(chr(base + (k + j) % 26) for j in range(l)), ATT_POOL[(att0 + i) % len(ATT_POOL)]))
+        chunks.append(Chunk("".join(chr(base + (k + j) % 26) for j in range(l)), ({} if uniform else ATT_POOL[(att0 + i) % len(ATT_POOL)])))
         k += l
     return FmtStr(*chunks)
 
